@@ -16,7 +16,7 @@ Theorem C03_constants :
   MessageInitiationSize = 148 /\ MessageResponseSize = 92 /\ MessageCookieReplySize = 64 /\
   MessageInitiationType = 1 /\ MessageResponseType = 2 /\ MessageCookieReplyType = 3 /\ MessageTransportType = 4 /\
   MessageInitiationType = Paper.type_initiation /\ MessageResponseType = Paper.type_response /\
-  MessageTransportHeaderSize = 16 /\ MessageTransportSize = 32 /\
+  MessageTransportHeaderSize = 16 /\ MessageTransportSize = 32 /\ CookieRefreshTimeSecs = 120 /\
   N.of_nat (8 + NoisePublicKeySize + StaticFieldSize + TimestampFieldSize + Mac128Size + Mac128Size) = MessageInitiationSize /\
   N.of_nat (12 + NoisePublicKeySize + TagSize + Mac128Size + Mac128Size) = MessageResponseSize /\
   N.of_nat (8 + NonceSizeX + CookieFieldSize) = MessageCookieReplySize.
@@ -342,6 +342,14 @@ Proof.
 Qed.
 Print Assumptions C03_unauthentic_cookie_reply_ignored.
 
+(* a cookie expires: CookieRefreshTime (120 s) after it was received the device holds no
+   cookie any more and MAC2 of what it emits is zero again *)
+Theorem C03_expired_cookie_zero_mac2 : forall d p e ts idx c age,
+  p_cookie p = Some (c, age) -> CookieRefreshTimeSecs <= age ->
+  forall to m, In (OInit to m) (snd (send_initiation d p e ts idx)) -> i_mac2 m = TZero.
+Proof. exact expired_cookie_zero_mac2. Qed.
+Print Assumptions C03_expired_cookie_zero_mac2.
+
 (* ---- non-vacuity ------------------------------------------------------------ *)
 
 (* device 1 with peers 2 (psk 7) and 3 (no psk): peer 2 initiates, the device
@@ -505,5 +513,31 @@ Example C03_nonvacuous_key_change :
     | _, _ => false
     end
   | None => false
+  end = true.
+Proof. vm_compute. reflexivity. Qed.
+
+(* authentic cookie, 50 s later still used, a further 121 s later expired: MAC2 zero in the
+   initiation and in the response; a new authentic reply arms it again *)
+Example C03_nonvacuous_cookie_expiry :
+  match dev_step ex_dev (EKick 3%nat 40%nat 9 3000) with
+  | (d1, [OInit 3%nat m1]) =>
+    let d2 := fst (dev_step d1 (ECookie 3000 2 (TAead (cookie_key (TPub 3%nat)) 2 (TC 101) (i_mac1 m1)))) in
+    let d3 := fst (dev_step d2 (EAge 50)) in
+    match dev_step d3 (EKick 3%nat 41%nat 10 3001) with
+    | (d4, [OInit 3%nat m2]) =>
+      negb (is_zero (i_mac2 m2)) &&
+      let d5 := fst (dev_step d4 (EAge 121)) in
+      match dev_step d5 (EKick 3%nat 42%nat 11 3002), Paper.initiation 3%nat 20%nat (TPub 1%nat) 5 1000 with
+      | (d6, [OInit 3%nat m3]), Some (_, mi) =>
+        is_zero (i_mac2 m3) &&
+        match dev_step d6 (EInit mi 30%nat 2000) with
+        | (_, [OResp 3%nat r]) => is_zero (r_mac2 r)
+        | _ => false
+        end
+      | _, _ => false
+      end
+    | _ => false
+    end
+  | _ => false
   end = true.
 Proof. vm_compute. reflexivity. Qed.
